@@ -871,3 +871,302 @@ def kr1(proj, rep, modules):
                                   f'merged in different factor orders (the elements are not Kronecker products; not Hermitian for Hermitian factors)', m, c)
     rep.count('KR1.batched_kron', n)
     return n
+
+
+# ------------------------------------------------------------------------------------------------ AR3 / CS1 / ER1 / IT1 / EO1 / NZ2
+RULE_AR3 = ('AR3: at a resolved call of a numqi function / constructor no two arguments are CROSSED by name: if the bare name `x` is passed to the parameter called '
+            '`y` while the bare name `y` is passed to the parameter called `x`, the two slots are swapped (e.g. Trace1PSD(dim, batch_size, rank) for a '
+            'signature (dim, rank, batch_size)).')
+RULE_CS1 = ('CS1: all call sites of one function that pass the same two bare names as positional arguments pass them in the same order; a site with the opposite '
+            'order (get_dicke_number(dimB, kext) next to get_dicke_number(kext, dimB)) binds them to swapped parameters.')
+RULE_ER1 = ('ER1: in the index-relabelling primitives every value that is returned depends on the target-qubit parameter `index` (through the leg lists / '
+            'reshapes built from it): a shortcut path whose result does not read `index` applies the operator in register order, whatever order the '
+            'targets were given in.')
+RULE_IT1 = ('IT1: an iterator object (itertools.*, zip, map, a generator expression) bound to a name is consumed by at most one loop / list() / generator on any '
+            'straight-line path: a second consumer sees it empty (e.g. counting it with len(list(it)) before the loop that was built on it runs).')
+RULE_EO1 = ('EO1: a single-operand einsum that traces out subsystems of an operator reshaped to (row dims..., column dims...) lists the kept ROW legs before the '
+            'kept COLUMN legs in its output; the reverse order returns the transpose (= complex conjugate for a Hermitian reduced state).')
+RULE_NZ2 = ('NZ2: a slice `x[..., :-k]` with a non-literal k drops the last k entries only for k > 0; for k == 0 it is `[:0]`, the EMPTY array, not everything. '
+            'A k that can be 0 (an `0 if flag else 1` expression) needs the positive form `x[..., :n-k]` or a guard.')
+
+
+def ar3(proj, rep, modules=None):
+    from ..project import bind_call
+    rep.rule('AR3', RULE_AR3)
+    n = 0
+    for fi in proj.iter_functions():
+        m = fi.module
+        if modules is not None and not any(m.name == q or m.name.startswith(q + '.') for q in modules):
+            continue
+        for c in ast.walk(fi.node):
+            if not isinstance(c, ast.Call) or len(c.args) + len(c.keywords) < 2:
+                continue
+            r = resolve_callee(proj, m, c)
+            callee = r.node if r.kind == 'func' else (r.node.methods.get('__init__') if r.kind == 'class' else None)
+            if callee is None:
+                continue
+            try:
+                b = bind_call(c, callee)
+            except Exception:
+                continue
+            named = {p: a.id for p, a in b.args.items() if isinstance(a, ast.Name) and len(a.id) >= 3 and len(p) >= 3}    # loop letters (i, j, x) carry no role
+            if len(named) < 2:
+                continue
+            n += 1
+            crossed = [(p, a) for p, a in named.items() if a != p and a in named and named[a] == p]
+            if crossed:
+                p, a = crossed[0]
+                rep.touch(m)
+                rep.violation('AR3', fi.qual, f'`{ast.unparse(c)[:90]}` passes `{a}` as parameter `{p}` and `{p}` as parameter `{a}` of {callee.qual}: the two slots are swapped', m, c)
+    rep.count('AR3.call_sites_with_named_arguments', n)
+    if n:
+        rep.ok('AR3', 'package', f'{n} resolved call sites with two or more bare-name arguments: no crossed pair', proj.mod('numqi.utils'), proj.mod('numqi.utils').tree, text='crossed names')
+    return n
+
+
+def cs1(proj, rep, modules=None):
+    rep.rule('CS1', RULE_CS1)
+    sites = {}
+    for fi in proj.iter_functions():
+        m = fi.module
+        for c in ast.walk(fi.node):
+            if isinstance(c, ast.Call) and len(c.args) >= 2 and all(isinstance(a, (ast.Name, ast.Attribute)) for a in c.args[:2]):
+                r = resolve_callee(proj, m, c)
+                if r.kind != 'func':
+                    continue
+                a0, a1 = ast.unparse(c.args[0]), ast.unparse(c.args[1])
+                if a0 == a1 or len(a0) < 3 or len(a1) < 3:
+                    continue
+                sites.setdefault((r.qual, frozenset((a0, a1))), []).append(((a0, a1), fi, c))
+    n = 0
+    for (q, pair), lst in sites.items():
+        if len(lst) < 2:
+            continue
+        n += 1
+        orders = {}
+        for o, fi, c in lst:
+            orders.setdefault(o, []).append((fi, c))
+        if len(orders) > 1:
+            major = max(orders.items(), key=lambda kv: len(kv[1]))[0]
+            for o, ss in orders.items():
+                if o != major:
+                    fi, c = ss[0]
+                    rep.touch(fi.module)
+                    rep.violation('CS1', fi.qual, f'`{ast.unparse(c)[:80]}` passes ({o[0]}, {o[1]}) while {len(orders[major])} other call site(s) of {q} pass '
+                                  f'({major[0]}, {major[1]}): the two arguments reach swapped parameters at one of the sites', fi.module, c)
+    rep.count('CS1.function_argument_pairs_with_several_sites', n)
+    if n:
+        rep.ok('CS1', 'package', f'{n} (function, argument pair) groups with two or more call sites use one order', proj.mod('numqi.utils'), proj.mod('numqi.utils').tree, text='call-site order')
+    return n
+
+
+def er1(proj, rep, func_quals, pname='index'):
+    rep.rule('ER1', RULE_ER1)
+    n = 0
+    for q in func_quals:
+        fi = proj.func(q)
+        m = fi.module
+        rep.touch(m)
+        if pname not in fi.all_params:
+            continue
+        # names that depend on `index` (transitively, flow-insensitively)
+        dep = {pname}
+        changed = True
+        while changed:
+            changed = False
+            for s in ast.walk(fi.node):
+                tg = []
+                val = None
+                if isinstance(s, ast.Assign):
+                    val = s.value
+                    for t in s.targets:
+                        tg += [e for e in (t.elts if isinstance(t, ast.Tuple) else [t])]
+                elif isinstance(s, ast.For):
+                    val = s.iter
+                    tg = [s.target] if not isinstance(s.target, ast.Tuple) else list(s.target.elts)
+                elif isinstance(s, ast.AugAssign):
+                    val = s.value
+                    tg = [s.target]
+                if val is None:
+                    continue
+                if any(isinstance(x, ast.Name) and x.id in dep for x in ast.walk(val)):
+                    for t in tg:
+                        base = t
+                        while isinstance(base, ast.Subscript):
+                            base = base.value
+                        if isinstance(base, ast.Name) and base.id not in dep:
+                            dep.add(base.id)
+                            changed = True
+        for r in [x for x in ast.walk(fi.node) if isinstance(x, ast.Return) and x.value is not None]:
+            n += 1
+            if any(isinstance(x, ast.Name) and x.id in dep for x in ast.walk(r.value)):
+                rep.ok('ER1', q, f'`{ast.unparse(r)[:60]}` depends on `{pname}`', m, r)
+            else:
+                rep.violation('ER1', q, f'`{ast.unparse(r)[:80]}` does not depend on `{pname}`: this path applies / contracts the operator in register order whatever order (or '
+                              f'set) of target qubits was requested', m, r)
+    rep.count('ER1.returns', n)
+    return n
+
+
+_ITER_MAKERS = {'combinations', 'permutations', 'product', 'combinations_with_replacement', 'zip', 'map', 'filter', 'chain', 'groupby', 'islice', 'iter'}
+_CONSUMERS = {'list', 'tuple', 'sum', 'max', 'min', 'sorted', 'set', 'dict', 'any', 'all', 'len'}
+
+
+def it1(proj, rep, modules):
+    rep.rule('IT1', RULE_IT1)
+    n = 0
+    for mq in modules:
+        m = proj.mod(mq)
+        for fi in [f for f in proj.funcs.values() if f.module is m]:
+            for blk in [x for x in ast.walk(fi.node) if hasattr(x, 'body') and isinstance(getattr(x, 'body'), list)]:
+                body = blk.body
+                for i, st in enumerate(body):
+                    if not (isinstance(st, ast.Assign) and isinstance(st.targets[0], ast.Name)):
+                        continue
+                    v = st.value
+                    is_iter = isinstance(v, ast.GeneratorExp) or (isinstance(v, ast.Call) and ast.unparse(v.func).split('.')[-1] in _ITER_MAKERS
+                                                                   and not ast.unparse(v.func).startswith(('np.', 'torch.')))
+                    if not is_iter:
+                        continue
+                    name = st.targets[0].id
+                    n += 1
+                    rep.touch(m)
+                    uses = []
+                    for s2 in body[i + 1:]:
+                        if isinstance(s2, ast.Assign) and any(isinstance(t, ast.Name) and t.id == name for t in s2.targets) and not any(
+                                isinstance(x, ast.Name) and x.id == name for x in ast.walk(s2.value)):
+                            break       # rebound to something else
+                        for x in ast.walk(s2):
+                            if isinstance(x, ast.Name) and x.id == name and isinstance(x.ctx, ast.Load):
+                                # `name = wrapper(name)` hands the single consumption over to the new object bound to the same name
+                                own = x
+                                rewrap = False
+                                while hasattr(own, '_parent') and own is not s2:
+                                    own = own._parent
+                                    if isinstance(own, ast.Assign) and any(isinstance(t, ast.Name) and t.id == name for t in own.targets):
+                                        rewrap = True
+                                if rewrap:
+                                    continue
+                                par = x._parent
+                                how = None
+                                if isinstance(par, ast.comprehension) and par.iter is x:
+                                    how = 'comprehension'
+                                elif isinstance(par, ast.For) and par.iter is x:
+                                    how = 'for loop'
+                                elif isinstance(par, ast.Call) and x in par.args and ast.unparse(par.func).split('.')[-1] in (_CONSUMERS | _ITER_MAKERS | {'array', 'stack', 'tqdm'}):
+                                    how = ast.unparse(par.func).split('.')[-1] + '()'
+                                elif isinstance(par, ast.Starred):
+                                    how = 'star-unpacking'
+                                if how:
+                                    uses.append((how, x, s2))
+                    # wrappers that just re-wrap the iterator (tqdm(it), map(f, it), (.. for x in it)) transfer the single consumption to the new name: count consumers of distinct statements
+                    stmts = []
+                    for how, x, s2 in uses:
+                        if s2 not in stmts:
+                            stmts.append(s2)
+                    if len(stmts) >= 2:
+                        rep.violation('IT1', fi.qual, f'the iterator `{name} = {ast.unparse(v)[:50]}` is consumed in two places (`{ast.unparse(stmts[0])[:50]}` and '
+                                      f'`{ast.unparse(stmts[1])[:50]}`): whichever runs second sees it exhausted', m, stmts[1])
+                    else:
+                        rep.ok('IT1', fi.qual, f'iterator `{name}` has a single consumer', m, st)
+    rep.count('IT1.named_iterators', n)
+    return n
+
+
+def eo1(proj, rep, modules):
+    rep.rule('EO1', RULE_EO1)
+    n = 0
+    for mq in modules:
+        m = proj.mod(mq)
+        for fi in [f for f in proj.funcs.values() if f.module is m]:
+            for c in ast.walk(fi.node):
+                if not (isinstance(c, ast.Call) and ast.unparse(c.func).split('.')[-1] == 'einsum' and len(c.args) == 3):
+                    continue
+                try:
+                    legs = [e.value for e in c.args[1].elts]
+                    out = [e.value for e in c.args[2].elts]
+                except AttributeError:
+                    continue
+                if len(legs) % 2 or len(legs) < 4 or not out or len(out) % 2:
+                    continue
+                k = len(legs) // 2
+                rows, cols = legs[:k], legs[k:]
+                # traced subsystems share a leg between the two halves
+                traced = [a for a, b in zip(rows, cols) if a == b]
+                if not traced:
+                    continue
+                kept_r = [a for a, b in zip(rows, cols) if a != b]
+                kept_c = [b for a, b in zip(rows, cols) if a != b]
+                if sorted(out) != sorted(kept_r + kept_c):
+                    continue
+                n += 1
+                rep.touch(m)
+                if out == kept_r + kept_c:
+                    rep.ok('EO1', fi.qual, f'`{ast.unparse(c)[-50:]}`: kept row legs {kept_r} before kept column legs {kept_c}', m, c)
+                elif out == kept_c + kept_r:
+                    rep.violation('EO1', fi.qual, f'`{ast.unparse(c)[:100]}`: the output lists the kept COLUMN legs {kept_c} before the kept row legs {kept_r}: the reduced operator is '
+                                  f'returned transposed (for a Hermitian state: complex conjugated), so states with complex marginals are judged wrongly', m, c)
+                else:
+                    rep.undecided('EO1', fi.qual, f'`{ast.unparse(c)[:80]}`: output order {out} not recognised', m, c)
+                    n -= 1
+    rep.count('EO1.partial_trace_einsums', n)
+    return n
+
+
+def nz2(proj, rep, modules):
+    rep.rule('NZ2', RULE_NZ2)
+    n = 0
+    for mq in modules:
+        m = proj.mod(mq)
+        for fi in [f for f in proj.funcs.values() if f.module is m]:
+            for c in ast.walk(fi.node):
+                if not isinstance(c, ast.Subscript):
+                    continue
+                sl = c.slice.elts if isinstance(c.slice, ast.Tuple) else [c.slice]
+                for s in sl:
+                    if isinstance(s, ast.Slice) and s.lower is None and isinstance(s.upper, ast.UnaryOp) and isinstance(s.upper.op, ast.USub) and isinstance(s.upper.operand, ast.Name):
+                        k = s.upper.operand.id
+                        n += 1
+                        rep.touch(m)
+                        defs = [x.value for x in ast.walk(fi.node) if isinstance(x, ast.Assign) and isinstance(x.targets[0], ast.Name) and x.targets[0].id == k]
+                        zero = any(isinstance(d, ast.IfExp) and any(isinstance(z, ast.Constant) and z.value == 0 for z in (d.body, d.orelse)) for d in defs) or \
+                            any(isinstance(d, ast.Constant) and d.value == 0 for d in defs) or any(isinstance(d, ast.Call) and ast.unparse(d.func) == 'int' and d.args
+                                                                                                  and isinstance(d.args[0], (ast.Compare, ast.UnaryOp, ast.Name)) for d in defs)
+                        if zero:
+                            rep.violation('NZ2', fi.qual, f'`{ast.unparse(c)[:60]}`: `{k}` can be 0 (`{ast.unparse(defs[0])[:40]}`); `[:-0]` is `[:0]`, the EMPTY array, so on that path '
+                                          f'everything is dropped instead of nothing', m, c)
+                        else:
+                            rep.ok('NZ2', fi.qual, f'`{ast.unparse(c)[:50]}`: `{k}` is not a zero-capable flag expression', m, c)
+    rep.count('NZ2.negative_upper_slices', n)
+    return n
+
+
+# ------------------------------------------------------------------------------------------------ DT3
+RULE_DT3 = ('DT3: in a torch branch that must follow the precision of its input, a normalising factor is not built from integer-only tensors: '
+            '`torch.sqrt(<product of torch.arange(...) without dtype>)` is evaluated in float32 whatever the input precision, so float64 / complex128 '
+            'input loses half of its digits (about 1e-8 relative).')
+
+
+def dt3(proj, rep, modules):
+    rep.rule('DT3', RULE_DT3)
+    n = 0
+    for mq in modules:
+        m = proj.mod(mq)
+        for fi in [f for f in proj.funcs.values() if f.module is m]:
+            for c in ast.walk(fi.node):
+                if not (isinstance(c, ast.Call) and ast.unparse(c.func) in ('torch.sqrt', 'torch.rsqrt') and c.args):
+                    continue
+                ar = [x for x in ast.walk(c.args[0]) if isinstance(x, ast.Call) and ast.unparse(x.func) == 'torch.arange']
+                if not ar:
+                    continue
+                n += 1
+                rep.touch(m)
+                typed = any(any(k.arg == 'dtype' for k in x.keywords) for x in ar) or any(isinstance(x, ast.Call) and ast.unparse(x.func) == 'torch.tensor'
+                                                                                          and any(k.arg == 'dtype' for k in x.keywords) for x in ast.walk(c.args[0]))
+                if typed:
+                    rep.ok('DT3', fi.qual, f'`{ast.unparse(c)[:70]}`: a factor carries an explicit floating dtype', m, c)
+                else:
+                    rep.violation('DT3', fi.qual, f'`{ast.unparse(c)[:90]}`: every factor is an integer tensor (torch.arange without dtype); torch.sqrt of an int64 tensor is float32, '
+                                  f'so the normalisation carries float32 rounding (~1e-8) even for float64 / complex128 input', m, c)
+    rep.count('DT3.torch_sqrt_of_arange', n)
+    return n
